@@ -1040,8 +1040,75 @@ def unit_efc_row(refsafe_on):
   return (f"efc_row/refsafe-{'on' if refsafe_on else 'off'}", run)
 
 
+# ------------------------------------------------------------------------------------------------ jac_dot_dof == mj_jacDot
+
+
+def goal_jacdot(spec, pre, post):
+  import numpy as np
+
+  g = lambda l: _scal(spec, l)
+  b, dof, w = int(g("bodyid")), int(g("dofid")), int(g("worldid"))
+  point = [float(np.float32(x)) for x in g("point")]
+  f = lambda v: [float(x) for x in v]
+  isanc = int(pre["body_isdofancestor"][b, dof])
+  if not isanc:
+    rp, rr = [0.0] * 3, [0.0] * 3
+  else:
+    j = int(pre["dof_jntid"][dof])
+    rp, rr, _ = rf.ref_jacdot_col(isanc, int(pre["jnt_type"][j]), dof, int(pre["jnt_dofadr"][j]), f(pre["cdof_in"][w, dof]), f(pre["cdof_dot_in"][w, dof]), f(pre["cvel_in"][w, b]), f(pre["cvel_in"][w, int(pre["dof_bodyid"][dof])]), f(pre["subtree_com_in"][w, int(pre["body_rootid"][b])]), point)
+  bad = []
+  for i in range(3):
+    if not lib.approx(post["jacp_out"][0][i], rp[i], rtol=2e-3, atol=1e-4):
+      bad.append(f"jacp[{i}] = {post['jacp_out'][0][i]} vs mj_jacDot reference {rp[i]}")
+    if not lib.approx(post["jacr_out"][0][i], rr[i], rtol=2e-3, atol=1e-4):
+      bad.append(f"jacr[{i}] = {post['jacr_out'][0][i]} vs mj_jacDot reference {rr[i]}")
+  return (not bad), "; ".join(bad) or "column agrees with the reference"
+
+
+def unit_jac_dot_dof(ctx):
+  """discharges the jac_dot_dof CONTRACT used by the connect / weld units: the real support.jac_dot_dof (through a
+  forwarding wrapper kernel) == column of MuJoCo's mj_jacDot, all arrays / indices symbolic"""
+  from checks import kernels_c05 as K
+  from mujoco_warp._src import support
+
+  bad, n, nq = rf.validate_jacdot()
+  ctx.notes.append(f"mj_jacDot reference validated against mujoco.mj_jacDot on {n} (body, dof) columns, {nq} of them quaternion dofs of a strict ancestor whose cvel differs from the queried body's")
+  for b in bad[:5]:
+    ctx.error("reference model disagrees with the mujoco library: " + b)
+  k = K.jac_dot_dof_wrap
+  loc = "checks.kernels_c05:jac_dot_dof_wrap"
+  ctx.encode(support.jac_dot_dof)
+  ctx.bound(shape_cap=6, note="one call; body, dof, world, point and every array (tree, joint types, cdof, cdof_dot, cvel, subtree_com) symbolic")
+  ctx.assume("the call's own array accesses are in bounds (C17)", "floats are exact reals", "body_isdofancestor[b, d] != 0 iff dof d belongs to body b or one of its ancestors (model invariant; the reference is validated with MuJoCo's own tree)")
+  kt = lib.kernel_thread(k, unroll=2)
+  A = kt.args
+  b, dof, w = A["bodyid"], A["dofid"], A["worldid"]
+  point = A["point"].c
+  isanc = kt.pre("body_isdofancestor", b, dof)
+  root = kt.pre("body_rootid", b)
+  jid = kt.pre("dof_jntid", dof)
+  jt, jadr = kt.pre("jnt_type", jid), kt.pre("jnt_dofadr", jid)
+  db = kt.pre("dof_bodyid", dof)
+  V = lambda lab, *idx: [kt.pre(lab, *idx, k=i) for i in range(kt.cell(lab).ncomp)]
+  rp, rr, isq = rf.ref_jacdot_col(isanc, jt, dof, jadr, V("cdof_in", w, dof), V("cdof_dot_in", w, dof), V("cvel_in", w, b), V("cvel_in", w, db), V("subtree_com_in", w, root), point)
+  # every array the mj_jacDot column reads is large enough (model / data shapes; makes counterexamples complete inputs)
+  ctx.assume("dof_bodyid, dof_jntid, jnt_type, jnt_dofadr, cdof, cdof_dot, cvel, subtree_com cover the dof / its body / the tree root")
+  inb = And(kt.inshape("dof_bodyid", dof), kt.inshape("cvel_in", w, db), kt.inshape("cvel_in", w, b), kt.inshape("dof_jntid", dof), kt.inshape("jnt_type", jid), kt.inshape("jnt_dofadr", jid), kt.inshape("cdof_in", w, dof), kt.inshape("cdof_dot_in", w, dof), kt.inshape("body_rootid", b), kt.inshape("subtree_com_in", w, root))
+  sess = ctx.session(kt.bg + [core.zbool(Implies(isanc != 0, inb))])
+  anc = isanc != 0
+  # the index discipline is symbolic: the dof's body and the queried body (and their cvel rows) may differ
+  ctx.reach(sess, "twin:quaternion-dof-of-another-body", And(anc, isq, db != b, Or(*[x != y for x, y in zip(V("cvel_in", w, b), V("cvel_in", w, db))])))
+  for nm, cond in (("free-translational", And(jt == rf.mjJNT_FREE, dof < jadr + 3)), ("free-rotational", And(jt == rf.mjJNT_FREE, dof >= jadr + 3)), ("ball", jt == rf.mjJNT_BALL), ("hinge", jt == rf.mjJNT_HINGE), ("slide", jt == rf.mjJNT_SLIDE), ("not-an-ancestor", Not(anc))):
+    ctx.reach(sess, f"twin:{nm}", And(anc, cond) if nm != "not-an-ancestor" else cond)
+  names = {"body": b, "dof": dof, "world": w, "dof_body": db, "jnt_type": jt, "jnt_dofadr": jadr, "isancestor": isanc}
+  rp_ = lib.make_replay(ctx, kt, loc, "jacdot", "goal", goal="checks.c05:goal_jacdot", env={"randomize_floats": 2})
+  for i in range(3):
+    ctx.prove(sess, f"jacp/{i}", kt.post("jacp_out", 0, k=i) == core.to_z3(rp[i], "real"), True, names=names, replay=rp_, desc=f"jac_dot_dof: translational entry {i} differs from the mj_jacDot column cdof_dot_lin + cdof_dot_ang x offset + cdof_ang x pvel_lin (cdof_dot of quaternion dofs = crossMotion(cvel[dof's body], cdof))")
+    ctx.prove(sess, f"jacr/{i}", kt.post("jacr_out", 0, k=i) == core.to_z3(rr[i], "real"), True, names=names, replay=rp_, desc=f"jac_dot_dof: rotational entry {i} differs from cdof_dot_ang of mj_jacDot (0 for a non-ancestor dof)")
+
+
 def main(tier, seed, only=None):
-  units = [("refcheck", unit_refcheck), unit_efc_row(True), unit_efc_row(False)]
+  units = [("refcheck", unit_refcheck), unit_efc_row(True), unit_efc_row(False), ("jac_dot_dof", unit_jac_dot_dof)]
   specs = [(False, True), (True, True)] + ([(True, False)] if tier == "thorough" else [])
   U = 3  # nv / tendon-row bound (thorough deepens the specialisations, contact dimensions and weld rows instead)
   for b in SIMPLE:
